@@ -205,7 +205,12 @@ func (fx *Fx) chanClose(st *State, c Val, what string) {
 func (fx *Fx) execSend(st *State, x *ast.SendStmt) []Outcome {
 	c := fx.eval(st, x.Chan, false)
 	v := fx.eval(st, x.Value, false)
+	if ct, ok := c.T.Underlying().(*types.Chan); ok {
+		v = fx.coerce(st, v, ct.Elem())
+	}
+	fx.checkChanInvariantExpr(st, x.Chan, v)
 	fx.chanSend(st, c, v, exprText(x.Chan))
+	fx.traceChanOp(st, "chansend", c)
 	return normal(st)
 }
 
@@ -242,7 +247,8 @@ func (fx *Fx) chanRecv2(st *State, x *ast.UnaryExpr) []Val {
 	// a value is received (ok) or the channel is closed and drained (!ok => closed)
 	st.assume(implies(not(ok), app("ch_closed", cell)))
 	fx.noteCtxDone(st, c)
-	fx.assumeChanInvariant(st, c, v, ok, exprText(x.X))
+	fx.assumeChanInvariantExpr(st, x.X, v, ok)
+	fx.traceChanOp(st, "chanrecv", c)
 	return []Val{v, {T: types.Typ[types.Bool], S: SBool, X: ok}}
 }
 
@@ -267,6 +273,7 @@ func (fx *Fx) execSelect(st *State, x *ast.SelectStmt) []Outcome {
 	for _, cl := range x.Body.List {
 		cc := cl.(*ast.CommClause)
 		br := st.clone()
+		br.ghost["selcase"] = Val{S: SInt, X: fmt.Sprint(selIdx(x, cl))}
 		cur := []Outcome{{st: br, kind: kNormal}}
 		if cc.Comm != nil {
 			cur = fx.exec(br, cc.Comm)
@@ -286,4 +293,22 @@ func (fx *Fx) execSelect(st *State, x *ast.SelectStmt) []Outcome {
 	}
 	fx.assumed["select: any case may be taken (no fairness, no blocking analysis)"] = true
 	return outs
+}
+
+func selIdx(x *ast.SelectStmt, cl ast.Stmt) int {
+	for i, c := range x.Body.List {
+		if c == cl {
+			return i
+		}
+	}
+	return -1
+}
+
+// traceChanOp records channel operations of functions that ask for it (spec flag traced-chans) in the ghost trace.
+func (fx *Fx) traceChanOp(st *State, op string, c Val) {
+	if fx.rootSpec == nil || !fx.rootSpec.TraceChans {
+		return
+	}
+	fx.v.colSorts["arg_"+op+"_0"] = SRef
+	fx.abstractCallQuiet(st, c.X, op, []Val{c})
 }
